@@ -110,7 +110,7 @@ let rec wval = function
 (* theorem predicates and known-finding classifiers: list val -> bool *)
 let preds : (string * (val0 list -> bool)) list = [
   ("c19_pred", c19_pred); ("c09_pred", c09_pred); ("kf_f7", kf_f7);
-  ("c01_pred", c01_pred); ("kf_f20", kf_f20); ("kf_f22", kf_f22);
+  ("c01_pred", c01_pred); ("kf_f20", kf_f20); ("kf_f22", kf_f22); ("kf_f26", kf_f26);
   ("kf_f20_2", (fun l -> kf_f20 [List.hd l])); ("kf_f22_2", (fun l -> kf_f22 [List.hd l]));
   ("c03_pred", c03_pred); ("kf_f14", kf_f14); ("kf_f15", kf_f15); ("kf_f17", kf_f17_with oracles.o_ip_parse);
   ("kf_empty_authority", kf_empty_authority);
